@@ -259,6 +259,12 @@ pub fn inputs(tier: &str, seed: u64) -> Vec<(String, String)> {
             _ => format!("<v a='{}' b={} />{}", e, e.replace(' ', ""), e),
         }));
     }
+    // inline scripts holding characters whose lower- / upper-case forms have another UTF-8 length (byte offsets computed on
+    // a case-folded copy drift), with and without the end tag; `<!` followed by neither `--` nor a name
+    for s in ["<wxs module=\"m\">var s = \"\u{130}\";</wxs><v/>", "<wxs module=\"m\">\u{212a}\u{212a}\u{212a}\u{212a}", "<wxs module=\"m\">\"\u{1e9e}\u{df}\u{fb01}\"</WXS><v/>",
+              "<wxs module=\"m\">var a = '\u{130}\u{130}\u{130}'\n</wxs>{{ m.a }}", "<div>a<!>b</div>", "<! doctype html><v/>", "x <!1 y", "<v/><!", "<v><!-</v>", "<!\u{130}>"] {
+        v.push(("tmpl".into(), s.to_string()));
+    }
     // deep nesting (up to 64) of elements, brackets and operator chains
     for d in [8usize, 32, 64] {
         v.push(("tmpl".into(), format!("{}x{}", "<v>".repeat(d), "</v>".repeat(d))));
